@@ -5,7 +5,8 @@
 TG_PRE = ('struct tg { int m; char arr[4]; int mm[2][3]; int bf : 3; const int c; } tgs, *tgp; union tgu { int i; float f; } tgun; enum tge { TG0, TG1 };\n'
           'int tgi; const int tgc = 1; volatile int tgv; int *tgip; int tga[4]; int tgaa[2][3]; extern int tginc[]; int tgf(int); void tgvf(void); int (*tgfp)(int);\n'
           'extern int tgcomp[]; extern int tgcomp[5]; int tgkr(int (*)[]); int tgkr(int (*)[4]); double tgd; float tgfl; _Bool tgb; long tgl; unsigned char tguc;\n'
-          'struct tgal { char c; _Alignas(16) int m; int k; } tgals; union tgalu { _Alignas(32) char c[3]; short h; } tgalun;\n')
+          'struct tgal { char c; _Alignas(16) int m; int k; } tgals; union tgalu { _Alignas(32) char c[3]; short h; } tgalun;\n'
+          'enum tgfe : short; enum tgfe { TGF0, TGF1 }; enum tgfu : unsigned char { TGU0 = 255 }; enum tgfe tgfev;\n')
 TG_ORIGINS = [
     ('string', '"0123456789abcdef"'), ('wide-string', 'L"ab"'), ('u8-string', 'u8"ab"'), ('u16-string', 'u"ab"'), ('concat-string', '"ab" "cd"'), ('paren-string', '("ab")'),
     ('func-name', '__func__'), ('compound-array', '(int[]){1, 2, 3}'), ('compound-char-array', '(char[]){"ab"}'), ('compound-struct', '(struct tg){0}'), ('compound-scalar', '(int){1}'),
@@ -18,7 +19,7 @@ TG_ORIGINS = [
     ('enum-constant', 'TG1'), ('enum-object', '(enum tge)1'), ('char-constant', "'a'"), ('wide-char-constant', "L'a'"), ('integer-constant', '1'), ('unsigned-long-constant', '1ul'),
     ('float-constant', '1.0f'), ('double-constant', '1.0'), ('long-double-constant', '1.0L'), ('bool', 'tgb'), ('promoted', '+tguc'), ('shift', 'tguc << tgl'), ('comparison', 'tgd < tgi'),
     ('logical', 'tgip && tgd'), ('assignment', 'tguc = tgi'), ('compound-assignment', 'tguc += 1'), ('increment', 'tgip++'), ('generic', '_Generic(tgi, int: tgd, default: tgi)'),
-    ('offsetof', '__builtin_offsetof(struct tg, arr)'), ('va-list', '*(__builtin_va_list *)0'), ('nullptr', 'nullptr'), ('union-member', 'tgun.f'), ('struct-object', 'tgs'), ('overaligned-struct', 'tgals'), ('overaligned-union', 'tgalun'), ('overaligned-member', 'tgals.m'), ('deref-struct-pointer', '*tgp'),
+    ('offsetof', '__builtin_offsetof(struct tg, arr)'), ('va-list', '*(__builtin_va_list *)0'), ('nullptr', 'nullptr'), ('union-member', 'tgun.f'), ('struct-object', 'tgs'), ('forward-fixed-enum-object', 'tgfev'), ('forward-fixed-enum-constant', 'TGF1'), ('fixed-enum-constant', 'TGU0'), ('overaligned-struct', 'tgals'), ('overaligned-union', 'tgalun'), ('overaligned-member', 'tgals.m'), ('deref-struct-pointer', '*tgp'),
     ('subscript', 'tga[1]'), ('subscript-2d', 'tgaa[1][2]'), ('string-subscript', '"ab"[1]'), ('deref-string', '*"ab"'), ('address-of-string', '&"ab"'), ('address-of-compound', '&(int[2]){1, 2}'),
 ]
 TG_CONSUMERS = [
